@@ -22,7 +22,7 @@ import (
 func init() { registerPart("C11", "TestC11", jsonReplay(checkC11)) }
 
 // root pools: sharing prefixes, differing by a trailing slash or by a variable, with "/"
-var c11Roots = []string{"/", "/a", "/a/", "/a/b", "/a/{x}", "/a/{x}/c", "/a/{x}/d", "/b", "/b/{z}", "/{y}", "/c/d", "/c"}
+var c11Roots = []string{"/", "/a", "/a/", "/a/b", "/a/{x}", "/a/{x}/c", "/a/{x}/d", "/b", "/b/{z}", "/{y}", "/c/d", "/c", "{w}/items"}
 
 // roots whose ServeMux patterns are pairwise distinct and not nested in each other's "/"-variants
 var c11SafeRoots = []string{"/", "/a", "/b/{z}", "/c/d", "/d", "/e/{v}/f"}
@@ -214,13 +214,19 @@ func checkC11(c C11Case) (vs []*Violation) {
 	addPaths := func(root string, routes []c11Route) {
 		for _, r := range routes {
 			full := c11FullPath(root, r.Path)
-			p := strings.NewReplacer("{x}", "vx", "{z}", "vz", "{y}", "vy", "{v}", "vv", "{id}", "42").Replace(full)
+			p := strings.NewReplacer("{x}", "vx", "{z}", "vz", "{y}", "vy", "{v}", "vv", "{w}", "vw", "{id}", "42").Replace(full)
+			if !strings.HasPrefix(p, "/") {
+				p = "/" + p // a root path written without its leading slash ("{w}/items")
+			}
 			everPaths = append(everPaths, p, strings.TrimRight(p, "/")+"/extra")
 			if p != "/" {
 				everPaths = append(everPaths, strings.TrimRight(p, "/"), strings.TrimRight(p, "/")+"/")
 			}
 		}
-		p := strings.NewReplacer("{x}", "vx", "{z}", "vz", "{y}", "vy", "{v}", "vv").Replace(root)
+		p := strings.NewReplacer("{x}", "vx", "{z}", "vz", "{y}", "vy", "{v}", "vv", "{w}", "vw").Replace(root)
+		if !strings.HasPrefix(p, "/") {
+			p = "/" + p
+		}
 		everPaths = append(everPaths, p)
 	}
 	remove := func(key string) {
